@@ -55,3 +55,16 @@ Definition hstack_keep_first (x y : arr) : arr :=
   (fst x, map (cast (fst x)) (snd (hstack x y))).
 
 Definition decode (x : arr) : list value := map denote (snd x).
+
+(* What reaches the file: H5Writer.update_concatenated_field writes floating arrays with `astype(np.float32)` (integer and text arrays
+   as they are).  float32 holds every integer and half up to 2^24 exactly; beyond that the model rounds to a multiple of 2 (an
+   approximation of round-to-nearest-even that is only used to exhibit a witness).  Values are "twice the float", hence 2^25.
+   Not representable here and outside the domain as well: a user value equal to FLOAT_NDV (1.17549435e-38) reads back as NaN by
+   design of the no-data convention; a text / number mix under one label is stringified by numpy (the generator keeps one value
+   family per data name). *)
+Definition in_f32 (t : Z) : bool := Z.leb (Z.abs t) 33554432.
+Definition round32 (t : Z) : Z := if in_f32 t then t else (4 * Z.quot t 4)%Z.
+Definition store_el (e : el) : el := match e with EH t => EH (round32 t) | _ => e end.
+Definition stored (x : arr) : arr := (fst x, map store_el (snd x)).
+(* the domain on which the storage is exact: |integer| <= 2^24, |float| <= 2^24 (integers and halves) *)
+Definition in_domain (e : el) : bool := match e with EI z => in_f32 (2 * z) | EH t => in_f32 t | ES _ => true end.
